@@ -341,6 +341,9 @@ impl Polynomial<Cmplx> {
                 Cmplx::polar( 1.0 + abx, iter as f64 )
             };
             let x1 = *x - dx;
+            // Close to a root at (or near) zero g = d / b overflows and the step is not finite:
+            // keep the last finite iterate instead of returning NaN.
+            if !( x1.real.is_finite() && x1.imag.is_finite() ) { return; }
             if *x == x1 { return; }
             if iter % MT != 0 { *x = x1; } else { *x -= dx * frac[ iter / MT ]; }
         }
